@@ -588,12 +588,13 @@ class Randomizer(RandIF):
                 fm.size.dispose()
                 fm.sum_expr_btor = None
                 fm.product_expr_btor = None
-                if failed and fm.is_rand_sz and fm.is_scalar and fm.presolve_len is not None:
-                    if len(fm.field_l) > fm.presolve_len:
+                if failed and fm.is_rand_sz and fm.presolve_len is not None:
+                    if fm.is_scalar and len(fm.field_l) > fm.presolve_len:
                         del fm.field_l[fm.presolve_len:]
-                    fm._set_size(len(fm.field_l))
+                    fm._set_size(fm.presolve_size)
                 # Only valid for the call that recorded it
                 fm.presolve_len = None
+                fm.presolve_size = None
         elif hasattr(fm, "dispose"):
             fm.dispose()
 
@@ -690,6 +691,11 @@ class Randomizer(RandIF):
                 randomize_done(srcinfo, solve_info)
             for fm in field_model_l:
                 ConstraintOverrideRollbackVisitor.rollback(fm)
+            # Fields outside the randomized objects may be referenced by
+            # the constraints: they must not keep a solver node either
+            for rs in ri.randsets():
+                for f in rs.all_fields():
+                    f.dispose()
 
         visited = [] 
         for fm in field_model_l:
